@@ -121,6 +121,8 @@ def C02(ctx):
         fwd.rule_delegation(ctx, m, ['dtaidistance.dtw', 'dtaidistance.dtw_ndim'])
     tables.rule_pyx_siblings(ctx, m)
     cshape.rule_ndim_stride(ctx, m, NDIM_FUNCS[:4])
+    cshape.rule_config_invariance(ctx, m)
+    cshape.rule_sibling_skeleton(ctx, m, ['dtw_distance', 'dtw_distance_ndim', 'euclidean_distance', 'euclidean_distance_ndim', 'ub_euclidean', 'ub_euclidean_ndim'])
     cshape.rule_variant_callees(ctx, m)
     ctx.floor('R-BAND', 20, '4 C kernels x (lo, hi) x 2 window encodings + rows')
     ctx.floor('R-REC', 32, '4 C kernels x 8 facts')
@@ -166,6 +168,7 @@ def C04(ctx):
     wps.rule_wps_exits(ctx, m)
     wps.rule_wps_readers(ctx, m, affinity=False)
     cshape.rule_ndim_stride(ctx, m, NDIM_FUNCS[4:6])
+    cshape.rule_sibling_skeleton(ctx, m, ['dtw_warping_paths', 'dtw_warping_paths_ndim'])
     ctx.floor('R-REC', 6, 'python matrix facts')
 
 
@@ -225,6 +228,7 @@ def C08(ctx):
     tables.rule_psi_asserts(ctx, m)
     from .rules import wps
     wps.rule_wps_bounds(ctx, m, tier=ctx.tier)
+    cshape.rule_config_invariance(ctx, m)
     with ctx.scoped(has('output slot', 'output store', 'pair counter', 'prefix-sum plan', 'row index')):
         iterspace.rule_omp(ctx, m)      # the parallel regions write output[slot]: the slot arithmetic bounds the write
     ctx.floor('R-ALLOC', 20, 'C + pyx allocation sites')
@@ -244,6 +248,7 @@ def C09(ctx):
     cshape.rule_scan_init(ctx, m, only=['lb_keogh', 'lb_keogh_euclidean'])
     cshape.rule_shadow(ctx, m, only=['euclidean_distance', 'euclidean_distance_euclidean', 'euclidean_distance_ndim', 'euclidean_distance_ndim_euclidean'])
     cshape.rule_ndim_stride(ctx, m, ['euclidean_distance_ndim', 'euclidean_distance_ndim_euclidean'])
+    cshape.rule_sibling_skeleton(ctx, m, ['lb_keogh', 'euclidean_distance', 'euclidean_distance_ndim', 'ub_euclidean', 'ub_euclidean_ndim'])
     ks = _kernels(ctx, m)
     with ctx.scoped(has('only_ub')):
         for F in ks:
@@ -287,6 +292,7 @@ def C11(ctx):
         cshape.rule_shadow(ctx, m)
     from .rules import bounds
     bounds.rule_ndim_siblings(ctx, m)
+    cshape.rule_sibling_skeleton(ctx, m, ['dtw_distance_ndim', 'dtw_warping_paths_ndim', 'euclidean_distance_ndim', 'ub_euclidean_ndim'])
     tables.rule_inner_dist_table(ctx, m)
     pyshape.rule_series_container(ctx, m)
     ctx.floor('R-STRIDE', 60, 'n-D subscripts')
@@ -375,6 +381,7 @@ def C18(ctx):
     misc.rule_identity(ctx, m, ['dtaidistance.subsequence.localconcurrences'])
     wps.rule_dual(ctx, m)
     pyshape.rule_lc_marks(ctx, m)
+    cshape.rule_sibling_skeleton(ctx, m, ['dtw_warping_paths_affinity_ndim'])
     wps.rule_wps_readers(ctx, m, affinity=True)
     with ctx.scoped(has('dtw_best_path_affinity')):
         wps.rule_best_path_moves(ctx, m)
@@ -408,13 +415,13 @@ def C20(ctx):
 
 EXPL = {
     'C01': 'Python dtw.distance is an instance of the documented DP scheme: band, three predecessors with penalty on the two non-diagonal ones after '
-           'inverting the rolling-buffer map, psi roles, domain conversions, strict pruning; decided symbolically for all lengths/windows/psi.',
+           'inverting the rolling-buffer map, psi roles, domain conversions, strict pruning, row reset over the whole written row, table lookups by the inner distance in effect; decided symbolically for all lengths/windows/psi.',
     'C02': 'Fact-by-fact agreement of the four C distance kernels with the documented scheme (the same oracle the Python engine is checked against), '
-           'domain typing per kernel kind, variant families, pxd/header and call-site role agreement, option encodings.',
+           'domain typing per kernel kind, variant families, pxd/header and call-site role agreement, option encodings, element-major n-D strides, NDEBUG (shipped) configuration = analysed configuration minus asserts.',
     'C03': 'PrunedDTW block normal form in every kernel, never pruning on equality; final over-threshold conversion strict and domain-correct; the bound '
            'fed to max_dist belongs to the same inner distance/dimensionality; no round-tripped threshold in the final conversion.',
     'C04': 'Python warping_paths as scheme instance (both keep_int_repr modes); compact C writer per region: predecessors after inverting the region map, '
-           'lock-step of wpsi/ci on all paths, inf fill; pyx direct-matrix decision; return arity; option forwarding.',
+           'lock-step of wpsi/ci on all paths, inf fill; readers/expanders use the writer column<->position map region by region (regime proofs); pyx direct-matrix decision and identity; exits; return arity; option forwarding.',
     'C05': 'Back-tracking step tables are bijections onto the DP predecessors with penalties in the matrix domain; penalty reaches best_path; path arrays '
            'sized l1+l2 and at most one write per strictly decreasing step.',
     'C06': 'Symbolic iteration space of all pair enumerators and length functions equals the documented block semantics (values touched only through comparisons).',
@@ -426,19 +433,37 @@ EXPL = {
            'stride form, only_ub returns the result domain, bound variants match kernel variants.',
     'C10': 'Band relation symmetric/monotone/window-1 corollary proved on the extracted band terms; recurrence symmetric in the two non-diagonal steps; psi '
            'roles symmetric; point distances non-negative symmetric forms; mirroring of the triangular result.',
-    'C11': 'n-D kernels differ from 1-D siblings only in point distance and stride form; use_ndim plumbing to every sink; n-D entry points exist.',
+    'C11': 'n-D kernels differ from 1-D siblings only in point distance and stride form ((multiple of ndim) + d through local definitions); use_ndim plumbing to every sink; detected_ndim is the number of components of a point; n-D entry points exist.',
     'C12': 'DBA accumulation/mean pairing on every path in C and Python, mask guard and bit order, copy before in-place update, at most max_it updates, '
-           'buffer sized for the series actually aligned.',
+           'buffer sized for the series actually aligned; **kwargs options reach every alignment call.',
     'C13': 'psi encoding of subsequence DTW, identical options in the four engines, single domain conversion of the matching function, internal-domain penalty '
            'for back-tracking, writes-only-upper-bounds in the best-first iterator.',
-    'C14': 'Candidate loop as path/typestate problem: LB only when valid, strict comparators, threshold follows the heap root, distances defined on every path, cache typestate.',
+    'C14': 'Candidate loop as path/typestate problem: LB only when valid, strict comparators, threshold follows the heap root, distances defined on every path, cache typestate; LB_Keogh envelope window = DTW band in both engines.',
     'C15': 'Merge loop writes only +inf into the matrix, guard dominates merges and the minimum is recomputed on every path back; blanking covers the merged '
            'series; linkage hook appends one row per merge; SciPy condensed order.',
-    'C16': 'Final assignment post-dominates the last write of the means; partition construction; iteration counter; nearest-mean helpers as siblings; seeding blocks.',
-    'C17': 'dp.dp is a scheme instance with per-pair (substitution, indel) costs; arrow table agreement writer/reader; gap emission; negation of value and matrix together.',
-    'C18': 'Affinity recurrence normal form in Python and the C region expansions, option forwarding, entry points, identity tests, scan initialisers, negativize/positivize duality.',
-    'C19': 'Dispatch chains, monotonicity/range calculus per arm, reported-parameter completeness, documented formula agreement.',
+    'C16': 'Final assignment post-dominates the last write of the means; partition construction; iteration counter; nearest-mean helpers as siblings; seeding blocks; option domains of the C distances that decide "nearest".',
+    'C17': 'dp.dp is a scheme instance with per-pair (substitution, indel) costs applied as fn(s1[i], s2[j]); arrow table agreement writer/reader; gap emission; negation of value and matrix together; border gap cost = indel cost of the substitution function; the no-cell-under-max_dist exit cannot fire on an empty row.',
+    'C18': 'Affinity recurrence normal form in Python and the C region expansions, option forwarding (also for iterated, non-returned wrapping calls), entry points, identity tests, scan initialisers, negativize/positivize duality, consumed-cell marks idempotent and undone by the reset.',
+    'C19': 'Dispatch chains, monotonicity/range calculus per arm, reported-parameter completeness, documented formula agreement, keep_sign offset Xz = f(0) in every branch (closed forms normalised with sympy).',
     'C20': 'No store through series parameters in Python or C, contiguity before raw pointers, private container storage, optional-NumPy symmetry, module state and per-object history.',
 }
 
-PROPS = {k: (globals()[k], EXPL[k]) for k in EXPL}
+C_ENGINE_PROPS = {'C02', 'C03', 'C04', 'C05', 'C06', 'C07', 'C08', 'C09', 'C10', 'C11', 'C12', 'C18', 'C20'}
+
+
+def _with_thorough(pid, fn):
+    """Thorough tier = the quick rules plus, for every property that rests on the C engine, the whole-engine closure: build-configuration
+    invariance of all four library translation units (NDEBUG, the shipped configuration) and the squared/euclidean sibling comparison of all
+    ten kernel families (cross-reference notes)."""
+    def run(ctx):
+        fn(ctx)
+        if ctx.tier == 'thorough' and pid in C_ENGINE_PROPS:
+            m = model(ctx.repo)
+            have = {o['instance'] for o in ctx.obligations if o['rule'] == 'R-CFG'}
+            if not have:
+                cshape.rule_config_invariance(ctx, m)
+            cshape.rule_sibling_skeleton(ctx, m)
+    return run
+
+
+PROPS = {k: (_with_thorough(k, globals()[k]), EXPL[k]) for k in EXPL}
